@@ -247,7 +247,10 @@ def binop(I, st, op, a, b, inplace=False):
             elif op == "Mod":
                 r = x - y * py_floordiv(x, y)
             elif op in ("BitAnd", "BitOr", "BitXor", "LShift", "RShift") and isinstance(x, int) and isinstance(y, int):
-                r = {"BitAnd": x & y, "BitOr": x | y, "BitXor": x ^ y, "LShift": x << y, "RShift": x >> y}[op]
+                if op in ("LShift", "RShift") and y < 0:
+                    yield st, exc("ValueError", "negative shift count")
+                    return
+                r = {"BitAnd": lambda: x & y, "BitOr": lambda: x | y, "BitXor": lambda: x ^ y, "LShift": lambda: x << y, "RShift": lambda: x >> y}[op]()
             else:
                 raise Unsupported("operator %s" % op)
         except ZeroDivisionError:
@@ -276,8 +279,44 @@ def binop(I, st, op, a, b, inplace=False):
             else:
                 q = z3.ToReal(z3.ToInt(x / y))
                 yield st1, (q if op == "FloorDiv" else x - y * q)
+    elif (op in ("BitAnd", "BitOr", "BitXor") and z3.is_int(x) and z3.is_int(y) and (z3.is_int_value(x) or z3.is_int_value(y))
+          and not is_boollike(a) and not is_boollike(b)):
+        # one operand is a concrete mask: exact two's-complement semantics of Python ints through floor division
+        # (bit b of v is (v div 2^b) mod 2 for every integer v, negative ones included)
+        m, v = (x.as_long(), y) if z3.is_int_value(x) else (y.as_long(), x)
+        a = mask_and(v, m)
+        if op == "BitAnd":
+            yield st, a
+        elif op == "BitOr":
+            yield st, v + m - a
+        else:
+            yield st, v + m - 2 * a
     else:
         raise Unsupported("bit operator %s on mathematical integers" % op)
+
+
+def mask_and(v, m):
+    """v & m for a symbolic integer v and a concrete integer m (any sign)."""
+    if m < 0:
+        # v = (v & m) + (v & ~m): the two masks partition the bits
+        return v - mask_and(v, -m - 1)
+    bits = [b for b in range(m.bit_length()) if (m >> b) & 1]
+    if len(bits) > 16:
+        raise Unsupported("bit mask with more than 16 set bits on a symbolic integer")
+    r = z3.IntVal(0)
+    for b in bits:
+        r = r + ((v / (2 ** b)) % 2) * (2 ** b)
+    return r
+
+
+def invert(I, st, v):
+    """~v = -v - 1 (exact for Python ints)"""
+    v = as_arith(v)
+    if isinstance(v, int):
+        return ~v
+    if is_z3(v) and z3.is_int(v):
+        return -v - 1
+    raise Unsupported("unary ~ on %r" % (v,))
 
 
 def num_compare(op, a, b):
